@@ -10,13 +10,15 @@ theorem goodIdInv : Good (fun a b => b.prog = a.prog ∧ (IdInv a → IdInv b)) 
     obtain ⟨_, fa, _, fp, _⟩ := h
     unfold IdInv at hi ⊢; rw [fa, fp]; exact hi⟩
   req := fun s c m _ hw => ⟨request_prog s c m, fun hi => by
+    obtain ⟨i, hn⟩ := hw
     obtain ⟨_, f2, f3, _⟩ := request_fields s c m
+    obtain ⟨_, n1, n2⟩ := nextId_spec s i hn
     unfold IdInv at hi ⊢
-    rw [f2, f3]
-    refine ⟨by omega, fun e he => ?_⟩
+    rw [f2, f3, hn, Option.getD_some]
+    refine ⟨n2, fun e he => ?_⟩
     rcases List.mem_append.mp he with h | h
     · exact hi.2 e (mem_pendingErase _ _ _ h).1
-    · simp at h; subst h; simp; omega⟩
+    · simp at h; subst h; exact ⟨n1, n2⟩⟩
   erase := fun s k _ => ⟨rfl, fun hi => ⟨hi.1, fun e he => hi.2 e (mem_pendingErase _ _ _ he).1⟩⟩
   nc := fun a _ => by cases a <;> simp [injectOk]
   clean := fun s _ _ => ⟨rfl, fun hi => ⟨hi.1, fun e he => by simp [Rpc.cleanup] at he⟩⟩
@@ -26,7 +28,7 @@ theorem IdInv_tick (s : Rpc) (h : IdInv s) : IdInv s.tick.1 := by
   · unfold Rpc.tick; rw [hr]; exact h
   · rw [tick_eq s hr]
     have h0 : IdInv s.afterSwap := h
-    exact (goodIdInv.completeAll kRequestTimeout s.nextItems s.afterSwap (progAll_true _) (fun _ _ => trivial)).2 h0
+    exact (goodIdInv.completeAll kRequestTimeout s.nextItems s.afterSwap (progAll_true _) (fun _ => trivial)).2 h0
 
 theorem IdInv_step (s : Rpc) (op : Op) (h : IdInv s) : IdInv (step s op).1 := by
   have g := goodIdInv
@@ -93,5 +95,78 @@ theorem pendingFind_zero (p : List (Nat × Cb)) (h : ∀ e ∈ p, 1 ≤ e.1) : p
   intro e he
   have := h e he
   simp; omega
+
+/-! ### the allocation loop ends: pigeonhole over the cyclic scan -/
+
+/-- cyclic successor in `[1, INT_MAX]` -/
+def succId (c : Nat) : Nat := if c < kIntMax then c + 1 else 1
+
+/-- steps from `c` to `c0` along the cycle -/
+def cdist (c c0 : Nat) : Nat := if c ≤ c0 then c0 - c else c0 + kIntMax - c
+
+theorem nextIdF_succ (fuel cur : Nat) (p : List (Nat × Cb)) :
+    nextIdF (fuel + 1) cur p =
+      if (pendingFind p (succId cur : Int)).isSome then nextIdF fuel (succId cur) p else some (succId cur) := rfl
+
+theorem kIntMax_val : kIntMax = 2147483647 := rfl
+
+/-- entries with key `c` do not matter while the scan cannot come back to `c` -/
+theorem nextIdF_erase (c : Nat) (hc : 1 ≤ c ∧ c ≤ kIntMax) : ∀ (fuel c0 : Nat) (p : List (Nat × Cb)),
+    1 ≤ c0 → c0 ≤ kIntMax → cdist c c0 + fuel < kIntMax →
+    nextIdF fuel c0 (pendingErase p c) = nextIdF fuel c0 p := by
+  intro fuel
+  induction fuel with
+  | zero => intro c0 p _ _ _; rfl
+  | succ fuel ih =>
+    intro c0 p h1 h2 hd
+    have hM := kIntMax_val
+    have hne : c ≠ succId c0 := by
+      unfold succId cdist at *; split <;> split at hd <;> omega
+    have hd' : cdist c (succId c0) + fuel < kIntMax := by
+      unfold succId cdist at *; split <;> split <;> split at hd <;> omega
+    have hr : 1 ≤ succId c0 ∧ succId c0 ≤ kIntMax := by unfold succId; split <;> omega
+    rw [nextIdF_succ, nextIdF_succ, find_erase_ne _ _ _ hne, ih _ p hr.1 hr.2 hd']
+
+theorem erase_length_lt (p : List (Nat × Cb)) (c : Nat) (h : (pendingFind p (c : Int)).isSome = true) :
+    (pendingErase p c).length < p.length := by
+  induction p with
+  | nil => simp [pendingFind] at h
+  | cons e es ih =>
+    rw [pendingErase_cons]
+    by_cases hk : e.1 = c
+    · simp only [hk, if_true, List.length_cons]
+      have : (pendingErase es c).length ≤ es.length := by unfold pendingErase; exact List.length_filter_le _ _
+      omega
+    · simp only [hk, if_false, List.length_cons]
+      have hk' : ¬ ((e.1 : Int) = (c : Int)) := by intro h'; exact hk (Int.ofNat_inj.mp h')
+      rw [find_cons, if_neg hk'] at h
+      have := ih h; omega
+
+theorem nextIdF_total : ∀ (fuel cur : Nat) (p : List (Nat × Cb)), cur ≤ kIntMax → p.length < fuel → fuel ≤ kIntMax →
+    (nextIdF fuel cur p).isSome = true := by
+  intro fuel
+  induction fuel with
+  | zero => intro cur p _ h _; omega
+  | succ fuel ih =>
+    intro cur p hcur hlen hf
+    have hM := kIntMax_val
+    have hr : 1 ≤ succId cur ∧ succId cur ≤ kIntMax := by unfold succId; split <;> omega
+    rw [nextIdF_succ]
+    by_cases hp : (pendingFind p (succId cur : Int)).isSome = true
+    · rw [if_pos hp]
+      have hlt := erase_length_lt p _ hp
+      have hd : cdist (succId cur) (succId cur) + fuel < kIntMax := by unfold cdist; simp; omega
+      rw [← nextIdF_erase (succId cur) hr fuel (succId cur) p hr.1 hr.2 hd]
+      exact ih _ _ hr.2 (by omega) (by omega)
+    · rw [if_neg hp]; rfl
+
+/-- the allocation loop returns an id while fewer than `INT_MAX` requests are pending -/
+theorem nextId_total (s : Rpc) (hi : s.idAlloc ≤ kIntMax) (hl : s.pending.length < kIntMax) :
+    ∃ id, s.nextId = some id := by
+  have := nextIdF_total (s.pending.length + 1) s.idAlloc s.pending hi (by omega) (by omega)
+  unfold Rpc.nextId
+  cases h : nextIdF (s.pending.length + 1) s.idAlloc s.pending with
+  | none => rw [h] at this; cases this
+  | some id => exact ⟨id, rfl⟩
 
 end Tbox.C14
